@@ -34,6 +34,30 @@ static parse_buffer *buffer_skip_whitespace(parse_buffer * const buffer)
     if (buffer->offset == buffer->length) { buffer->offset--; }
     return buffer;
 }
+/* TAB22: read through a plain char, bytes 0x80..0xFF are negative and pass for whitespace */
+static parse_buffer *bad_TAB22_signed_skip(parse_buffer * const buffer)
+{
+    const char *cursor = NULL;
+    const char *end = NULL;
+    if ((buffer == NULL) || (buffer->content == NULL)) { return NULL; }
+    cursor = (const char*)buffer_at_offset(buffer);
+    end = (const char*)buffer->content + buffer->length;
+    while ((cursor < end) && (*cursor <= ' ')) { cursor++; }
+    buffer->offset = (size_t)(cursor - (const char*)buffer->content);
+    return buffer;
+}
+static parse_buffer *good_unsigned_skip(parse_buffer * const buffer)
+{
+    const unsigned char *cursor = NULL;
+    const unsigned char *end = NULL;
+    if ((buffer == NULL) || (buffer->content == NULL)) { return NULL; }
+    cursor = buffer_at_offset(buffer);
+    end = buffer->content + buffer->length;
+    while ((cursor < end) && (*cursor <= ' ')) { cursor++; }
+    buffer->offset = (size_t)(cursor - buffer->content);
+    return buffer;
+}
+int use_skips(parse_buffer *b) { return (bad_TAB22_signed_skip(b) != NULL) + (good_unsigned_skip(b) != NULL); }
 static parse_buffer *skip_utf8_bom(parse_buffer * const buffer)
 {
     if ((buffer == NULL) || (buffer->content == NULL) || (buffer->offset != 0)) { return NULL; }
